@@ -50,3 +50,8 @@ M("c07-restart-shield-before-cancelled", "C07", A, "CancelScope._restart_cancell
   "            if scope._cancel_called:\n                if scope._cancel_handle is None:\n                    scope._deliver_cancellation(scope)\n\n                break\n\n            # No point in looking beyond any shielded scope\n            if scope._shield:\n                break\n",
   "            # No point in looking beyond any shielded scope\n            if scope._shield:\n                break\n\n            if scope._cancel_called:\n                if scope._cancel_handle is None:\n                    scope._deliver_cancellation(scope)\n\n                break\n", ["R07-h"])
 M("c07-spawn-no-restart", "C07", A, "TaskGroup._spawn", "        self.cancel_scope._restart_cancellation()\n", "", ["R07-h"])
+
+# from seeded change C07/f (round 3)
+M("c07-start-value-none-means-not-started", "C07", TASKS, "TaskHandle.start_value",
+  "        try:\n            return self._start_value\n        except AttributeError:\n            raise RuntimeError(\n                \"the task was not started with TaskGroup.start()\"\n            ) from None",
+  "        start_value = getattr(self, \"_start_value\", None)\n        if start_value is None:\n            raise RuntimeError(\"the task was not started with TaskGroup.start()\")\n\n        return start_value", ["R07-i"])
